@@ -17,6 +17,7 @@ REWRITES = {
     "services/ftp/socket.go": [
         ("net.ListenTCP(", "VerifListenTCP(", 1),
         ("net.DialTCP(", "VerifDialTCP(", 1),
+        ("net.ResolveTCPAddr(", "VerifResolveTCPAddr(", 2),
     ],
     "director/forward/forward.go": [
         ("net.Dial(", "VerifDial(", 1),
